@@ -9,6 +9,7 @@ import subprocess
 
 import core
 import decode_checks
+import gen
 import pair_checks
 import track_checks
 
@@ -62,6 +63,36 @@ def run(prop, tier, seed, rep):
         events.append({"ev": "cdecode", "bytes": a["bytes"], "std": s,
                        "alloc": {"out": b["out"], "outcome": b["outcome"], "text": b.get("text", [])}})
     n_dec = len(events)
+    # --- streams: several frames read one after the other through the build's own cursor type, truncated frames among them
+    # (what a decode leaves behind in the reader must not depend on the build either: the next decode starts from it)
+    sins = []
+    for _ in range(q(600, 12000)):
+        parts = []
+        for _k in range(rng.randrange(1, 4)):
+            df = rng.choice(sorted(gen.SUPPORTED))
+            b = es_frame(rng, df) if df in (17, 18) else rnd_frame(rng, df)
+            r = rng.random()
+            if r < 0.35:
+                b = b[:rng.randrange(0, len(b))]                      # cut short
+            elif r < 0.45:
+                b = b + bytearray(rng.getrandbits(8) for _ in range(rng.randrange(1, 4)))
+            parts.append(bytes(b))
+        sins.append({"bytes": list(b"".join(parts)), "n": len(parts) + 1})
+    # ... in particular the formats whose structure ends before the parity field (DF19, DF20), cut at every length, followed
+    # by something decodable
+    for df in (19, 20, 21, 17, 11):
+        for cut in range(0, 15):
+            b = rnd_frame(rng, df)[:cut]
+            tail = rnd_frame(rng, rng.choice((11, 4, 17)))
+            sins.append({"bytes": list(bytes(b) + bytes(tail)), "n": 3})
+    payload = "\n".join(json.dumps(x, separators=(",", ":")) for x in sins) + "\n"
+    ss = run_cmd(std, ["stream"], payload)
+    sa = run_cmd(alloc, ["stream"], payload)
+    if not (len(ss) == len(sa) == len(sins)):
+        raise core.ToolError("stream recorders disagree on the number of events")
+    for a, b in zip(ss, sa):
+        events.append({"ev": "cstream", "bytes": a["bytes"], "std": a["outs"], "alloc": b["outs"]})
+    n_stream = len(sins)
     # --- pairing ----------------------------------------------------------------------------------------
     pins = pair_checks.inputs(random.Random(rng.getrandbits(32)), "quick")
     rng.shuffle(pins)
@@ -71,7 +102,7 @@ def run(prop, tier, seed, rep):
     pa = run_cmd(alloc, ["pair"], payload)
     for a, b in zip(ps, pa):
         events.append({"ev": "cpair", "first": a["first"], "second": a["second"], "std": a["out"], "alloc": b["out"]})
-    n_pair = len(events) - n_dec
+    n_pair = len(events) - n_dec - n_stream
     # --- tracker histories (no clock, no serde: the alloc build has neither) --------------------------------
     hists = []
     for i in range(q(25, 400)):
@@ -136,7 +167,7 @@ def run(prop, tier, seed, rep):
     for v in v2:
         for owner, field in v["pairs"]:
             rep.mismatch(owner, v["cls"], field, {"kind": "track-serde", "event_index": v["index"]})
-    rep.extra.update({"decode_events_both_builds": n_dec, "pair_events_both_builds": n_pair, "tracker_steps_both_builds": n_track,
+    rep.extra.update({"decode_events_both_builds": n_dec, "streams_both_builds": n_stream, "pair_events_both_builds": n_pair, "tracker_steps_both_builds": n_track,
                       "frames_round_tripped_through_serde": sum(1 for e in events[:n_dec] if "serde" in e["std"]),
                       "tracker_serde_round_trips": sum(1 for e in sev if e["ev"] == "serde")})
     rep.samples = [{"ev": "cdecode", "bytes": events[0]["bytes"], "std": events[0]["std"]["out"], "alloc": events[0]["alloc"]["out"]}]
